@@ -23,6 +23,12 @@ def run(ctx):
         rates.append(str(rng.randrange(0, 4294968)))
     for _ in range(60 if q else 1500):
         rates.append(str(rng.randrange(4294968, 2 ** 32)))
+    # with the other command line options present, and restarts over the previous instance's segment
+    for v in ("omit", "1", "50", "1000", "4294967", "4294968", "999999"):
+        rates.append(v + "+phc")
+        rates.append(v + "+json")
+    for a_, b_ in (("50", "7"), ("7", "50"), ("omit", "50"), ("50", "omit"), ("50", "50"), ("4294967", "1"), ("1", "4294968")):
+        rates.append(a_ + ">" + b_)
     rates = list(dict.fromkeys(rates))
     chunks = [rates[i::NPROC] for i in range(NPROC)]
     cmds, outs = [], []
@@ -46,7 +52,11 @@ def run(ctx):
             continue
         for r in json.load(open(o)):
             n += 1
-            rate = r["rate"]
+            spec = r["rate"]
+            if r.get("setup_failed"):
+                lost += 1
+                continue
+            rate = spec.split(">")[-1].replace("+phc", "").replace("+json", "")
             want = None
             try:
                 v = 1 if rate == "omit" else int(rate)
@@ -64,19 +74,19 @@ def run(ctx):
                 got = d["max_drift"]
                 if want is None or want >= 2 ** 32 or got != want:
                     sig = "ppm-times-1000-wraps" if (want is not None and want >= 2 ** 32) else "drift-field-mismatch"
-                    rp = os.path.join(ctx.replay_dir, "C19-%s.json" % rate)
+                    rp = os.path.join(ctx.replay_dir, "C19-%s.json" % spec.replace(">", "_then_"))
                     with open(rp, "w") as f:
-                        json.dump({"property": "C19", "rate_ppm": rate, "published_max_drift_ppb": got, "expected": want, "segment_hex": r["published"]}, f, indent=1)
-                    viol.append({"sig": sig, "detail": "clockbound --max-drift-rate %s published max drift %d ppb; %s" % (rate, got, ("expected %d" % want) if (want is not None and want < 2 ** 32) else "the value is not representable and must be refused"), "replay": rp})
+                        json.dump({"property": "C19", "rate_ppm": spec, "published_max_drift_ppb": got, "expected": want, "segment_hex": r["published"]}, f, indent=1)
+                    viol.append({"sig": sig, "detail": "clockbound --max-drift-rate %s published max drift %d ppb; %s" % (spec, got, ("expected %d" % want) if (want is not None and want < 2 ** 32) else "the value is not representable and must be refused"), "replay": rp})
                 if len(samples) < 3:
                     samples.append({"rate_ppm": rate, "published_max_drift_ppb": got, "status_field": d["status"], "waited_s": r["waited_s"]})
             else:
                 refused += 1
                 if r["exit_code"] in (None, 0):
-                    rp = os.path.join(ctx.replay_dir, "C19-%s.json" % rate)
+                    rp = os.path.join(ctx.replay_dir, "C19-%s.json" % spec.replace(">", "_then_"))
                     with open(rp, "w") as f:
                         json.dump({"property": "C19", "observation": r}, f, indent=1)
-                    viol.append({"sig": "no-publication-no-refusal", "detail": "clockbound --max-drift-rate %s neither published within 8 s nor exited with an error (exit code %s): %s" % (rate, r["exit_code"], r["stderr_tail"][-200:]), "replay": rp})
+                    viol.append({"sig": "no-publication-no-refusal", "detail": "clockbound --max-drift-rate %s neither published (a new record) within 8 s nor exited with an error (exit code %s): %s" % (spec, r["exit_code"], r["stderr_tail"][-200:]), "replay": rp})
                 elif want is not None and want < 2 ** 32:
                     viol.append({"sig": "valid-rate-refused", "detail": "clockbound --max-drift-rate %s exited with code %s without publishing: %s" % (rate, r["exit_code"], r["stderr_tail"][-200:]), "replay": ""})
                 if len(samples) < 5 and cls != "representable":
@@ -89,7 +99,7 @@ def run(ctx):
     coverage = {
         "evaluations": n,
         "distinct_nontrivial": len(rates),
-        "rule": "each evaluation starts the release `clockbound` binary (guard off, as shipped) in its own mount namespace with a private /run and no chronyd, with one --max-drift-rate value: omitted, 0, 1, 50, the largest representable 4294967, the first wrapping 4294968, 2^31, 2^32-1, 2^32, -1, 'abc', values around every multiple of 2^32/1000, random representable and non-representable values; "
+        "rule": "each evaluation starts the release `clockbound` binary (guard off, as shipped) in its own mount namespace with a private /run and no chronyd, with one --max-drift-rate value: omitted, 0, 1, 50, the largest representable 4294967, the first wrapping 4294968, 2^31, 2^32-1, 2^32, -1, 'abc', values around every multiple of 2^32/1000, random representable and non-representable values; a few values again with the PHC options (private /sys) and with --json-output; restarts with another value over the segment the previous instance published; "
                 "the max-drift field is read from the segment at the offset PROTOCOL.md gives (56) after the first publication, or the exit status is taken; oracle: publishes exactly 1000 x rate (1000 when omitted) or exits non-zero without publishing; distinct_nontrivial = distinct rate values",
         "samples": samples,
         "published": published,
